@@ -589,4 +589,4 @@ Fixpoint run_clean (c : cfg) (fuel : nat) (w : world) (i : tid) : option world :
 
 (* enough fuel for a clean fetch from store s *)
 Definition clean_fuel (c : cfg) (s : store) : nat :=
-  40 + length (ztmp s) + match dir s with Some l => length l | None => 0 end + 3 * nfiles c.
+  42 + length (ztmp s) + match dir s with Some l => length l | None => 0 end + 3 * nfiles c.
